@@ -164,7 +164,8 @@ def _bind(helper, call, is_method):
 
 class Inliner(object):
 
-  def __init__(self, tree, new_names, known):
+  def __init__(self, tree, new_names, known, used_elsewhere=None):
+    self.used_elsewhere = used_elsewhere or (lambda name: False)
     self.tree = tree
     self.notes = []
     self.counter = 0
@@ -417,8 +418,8 @@ class Inliner(object):
           elif isinstance(c, ast.Attribute) and c.attr == name and cls is not None and \
               not any(isinstance(p, ast.Call) and p.func is c for p in _own_nodes(other)):
             left += 1
-      if left:
-        continue
+      if left or self.used_elsewhere(name):
+        continue           # still called from somewhere: it stays a function
       for holder in ast.walk(self.tree):
         body = getattr(holder, 'body', None)
         if isinstance(body, list) and fn in body:
@@ -433,7 +434,7 @@ def _pure(v):
       not any(isinstance(x, (ast.Call, ast.Await, ast.Yield)) for x in ast.walk(v))
 
 
-def undo_extract_method(relpath, tree, notes=None):
+def undo_extract_method(relpath, tree, notes=None, used_elsewhere=None):
   ref = roles.reference().get(relpath)
   if not ref:
     return []
@@ -446,7 +447,7 @@ def undo_extract_method(relpath, tree, notes=None):
   gone = {q.split('.')[-1] for q in ref if q not in cur}
   new = {q for q in new if q.split('.')[-1] not in gone}
   new -= set(roles.moved_functions(relpath, tree, notes).values())
-  done = Inliner(tree, new, set(ref)).run()
+  done = Inliner(tree, new, set(ref), used_elsewhere).run()
   out = ['%s: new helper %s read in place at its call sites' % (relpath, n) for n in done]
   if notes is not None:
     notes.extend(out)
